@@ -880,7 +880,7 @@ def describe(r, i, sh):
 
 def case_weight(c):
     m = c.meta
-    return (m.get("len", 0), len(c.line), c.line)
+    return (m.get("len", 0), 0 if m.get("rel") == "drop" else 1, len(c.line), c.line)
 
 
 # ------------------------------------------------------------------------------------------------
@@ -900,10 +900,11 @@ def c12_pairs(ctx, binpath=None, sh=None):
         cases.append(mk_tag(rng.choice([rng.randrange(0, 1 << 16), rng.randrange(0, 1 << 47), rng.randrange(0, 1 << 64)])))
     r = execute(binpath, drv, sh, cases, config="layout[c12]")
     failures = []
+    crashed = lambda i: r.impl[i].get("st", "").startswith("crash")
+    for i, fl in sorted(r.failures, key=lambda x: (crashed(x[0]), case_weight(r.cases[x[0]]))):
+        failures.append({"found_input": True, "text": describe(r, i, sh) + "\nproperty violated: " + fl["what"]})
     for i, mm in r.mismatch:
         failures.append({"found_input": False, "text": describe(r, i, sh) + "\nmodel/impl disagree on: " + str(mm)})
-    for i, fl in r.failures:
-        failures.append({"found_input": True, "text": describe(r, i, sh) + "\nproperty violated: " + fl["what"]})
     st = r.stats()
     st["ordered_pairs"] = len({(c.meta["A"], c.meta["B"]) for c in cases if c.kind == "union"})
     st["samples"] = [{"case": r.cases[i].line, "impl": r.impl_raw[i]} for i in range(0, min(len(cases), 3))]
@@ -1055,7 +1056,9 @@ def run_property(ctx, prop, module, assumptions):
         # prefer a failure observed at the allocator over a tripped assertion, then the smallest case
         def key(x):
             r, i, fl = x
-            return (r.impl[i].get("st", "").startswith("panic"), case_weight(r.cases[i]))
+            st = r.impl[i].get("st", "")
+            sev = 2 if st.startswith("crash") else 1 if st.startswith("panic") else 0
+            return (sev, 0 if ("accessor" in fl or "requested with" in fl["what"]) else 1, case_weight(r.cases[i]))
         fails.sort(key=key)
         r, i, fl = fails[0]
         body = ["failing input (one constructor / release-path case of the layout harness):", describe(r, i, r.sh), "",
@@ -1119,8 +1122,6 @@ def replay(ctx, prop, path):
     if bad:
         body = ["replayed failing input:", describe(r, 0, sh), "", "property %s demands: %s" % (prop, DEMANDS[prop])] + \
                ["observed: " + fl["what"] for fl in bad]
-        ctx.failed = True
-        ctx.obligations.pop()   # the violation line carries the verdict
         ctx.violation("ops", "\n".join(body), True)
     else:
         print("replay: the property holds on this input now")
